@@ -52,6 +52,8 @@ def cases(draw, rl):
     cfg["max_batches"] = n
     # early stopping is part of the configuration too (it must behave the same in every variant)
     cfg["convergence_precision"] = draw(st.sampled_from([None, None, 0, 0, 1]))
+    if cfg["loss"]["kind"] in ("msm", "likelihood") and draw(st.integers(0, 3)) == 0:
+        cfg["sim_length"] = draw(st.integers(8, 24))   # a simulation length other than the real series' length
     variants = []
     for v in range(3):
         variants.append({"n_jobs": [1, 2, 4][v] if draw(st.integers(0, 3)) else draw(st.sampled_from([1, 2, 4])),
